@@ -3,7 +3,7 @@
    ANY list of handlers.  A packet is a stack of relay layers (any depth) around an innermost
    message; stub6_spec is the literal type table.  id_preserving is what every built-in DHCPv6
    plugin handler satisfies (proved per plugin in the plugin developments). *)
-From Verif Require Import Base BaseProofs Net Msg6 Chain ChainProofs Server4 Server4Proofs Server6 Server6Run Server6Proofs Server6Examples Assembly AsmRefine6.
+From Verif Require Import Base BaseProofs Net Msg6 Chain ChainProofs Server4 Server4Proofs Server6 Server6Run Server6Proofs Server6Examples Assembly AsmRefine6 Msg4Codec Msg6Codec Msg6CodecProofs.
 Open Scope N_scope.
 
 Theorem reply6_type_table :
@@ -157,6 +157,32 @@ Theorem assembled_sent_is_handle6_sent :
   (Sent6 p dip dport ifx, log).
 Proof. exact (@AsmRefine6.assembled_sent_is_handle6_sent). Qed.
 Print Assumptions assembled_sent_is_handle6_sent.
+
+Theorem dhcp6_options_roundtrip :
+  forall o : opts6,
+  wf_opts6 o ->
+  forall fuel : nat, (length o < fuel)%nat -> dec_opts6 fuel (enc_opts6 o) = Some o.
+Proof. exact (@Msg6CodecProofs.dec_enc_opts6). Qed.
+Print Assumptions dhcp6_options_roundtrip.
+
+Theorem dhcp6_packet_roundtrip :
+  forall (ls : list layer) (inner : option imsg) (b : bytes),
+  Forall wf_layer ls ->
+  (forall m : imsg, inner = Some m -> wf_imsg m) ->
+  fits ls inner ->
+  enc_nest ls inner = Some b ->
+  forall fuel : nat,
+  (length ls < fuel)%nat -> dec_pkt6 fuel b = Some {| p_layers := ls; p_inner := inner |}.
+Proof. exact (@Msg6CodecProofs.dec_enc_pkt6). Qed.
+Print Assumptions dhcp6_packet_roundtrip.
+
+Theorem dhcp6_wire_roundtrip :
+  forall (p : pkt6) (b : bytes),
+  Forall wf_layer (p_layers p) ->
+  (forall m : imsg, p_inner p = Some m -> wf_imsg m) ->
+  fits (p_layers p) (p_inner p) -> enc_pkt6 p = Some b -> decode6 b = Some p.
+Proof. exact (@Msg6CodecProofs.decode6_encode6). Qed.
+Print Assumptions dhcp6_wire_roundtrip.
 
 (* Non-vacuity (proofs/Server6Examples.v) *)
 Example hypotheses_satisfiable :
